@@ -181,7 +181,7 @@ DeleteOK(uno, T, at, post) ==
     LET want == CanonDelete(T, at)
     IN \/ SameTreeU(uno, post, want)
        \/ /\ IsEntry(at)
-          /\ want.ord[FrontOf(at)] = << >>
+          /\ FrontOf(at) \in DOMAIN want.ord /\ want.ord[FrontOf(at)] = << >>
           /\ SameTreeU(uno, post, Without(want, {FrontOf(at)}))
 
 DeleteCheck(uno, T, at, res, post) ==
